@@ -70,6 +70,7 @@ IEval(t) ==
                            IN IF a < lo THEN lo ELSE IF a > hi THEN hi ELSE a
       [] t[1] = "fold" -> IFold(t[2], t[3])
       [] t[1] = "arg" -> IArg(t[2], t[3])
+      [] t[1] = "argm" -> LET i == IArg(t[2], t[3]) IN IF IsU(i) THEN Undef ELSE t[4][i + 1]
       [] t[1] = "dot" -> LET RECURSIVE go(_, _)
                              go(acc, i) == IF i > Len(t[2]) THEN acc
                                            ELSE go(IBin("add", acc, IBin("mul", IEval(t[2][i][1]), IEval(t[2][i][2]))), i + 1)
